@@ -16,8 +16,8 @@ import cpu_props
 from common import DEVNAMES, Case, bg, device_classes, gen_case, widths
 
 ID = 'C05'
-LEAN_MODULES = []
-NAMESPACES = []
+LEAN_MODULES = ['Py65.Props.C05']
+NAMESPACES = ['Py65.Props.C05']
 LEVEL = 'proof'
 TRUSTED = ['Spec.Cpu (oracle of the closure lemmas)', 'translator py2lean, validated every run',
            'Python list / ObservableMemory semantics for in-range indices']
